@@ -39,7 +39,7 @@ STATS = ['matching:', 'size:', 'cost:', 'cost_sq:', 'degree:', 'profile:', 'max_
 def BOUNDS(tier):
     return ('shapes: 3 corner shapes (max rank up to 3); criteria sequences: none, singles, %s; single faults at every solve position x 4 statuses (+ limit stop) '
             'x {transient, persistent} x {values untouched, arbitrary}; %s fault pairs per sequence; time limit None / symbolic'
-            % (('8 pairs (sampled)', '6') if tier == 'quick' else ('16 pairs from a pool of 6 + 4 triples (sampled), with and without -stab', '16')))
+            % (('14 pairs (sampled), flags -twopl / -twopl -stab / -pc', '10') if tier == 'quick' else ('24 pairs from a pool of 6 + 4 triples (sampled), flags -twopl / -twopl -stab / -pc', '24')))
 
 
 def shapes_c14():
@@ -56,15 +56,15 @@ def tasks(tier, seed):
         seqs = [[]] + [[c] for c in pool]
         pairs = [[a, b] for a in pool for b in pool if a != b]
         rng.shuffle(pairs)
-        seqs += pairs[:8] if tier == 'quick' else pairs[:16]
+        seqs += pairs[:14] if tier == 'quick' else pairs[:24]
         if tier == 'thorough':
             for _ in range(4):
                 seqs.append(rng.sample(pool, 3))
         for seq in seqs:
-            for flags in (['twopl'], ['twopl', 'stab']) if tier == 'thorough' else (['twopl'],):
+            for flags in (['twopl'], ['twopl', 'stab'], ['pc']):
                 for limit in (False, True):
                     out.append({'shape': lpchecks.shape_data(I), 'flags': flags, 'seq': seq, 'limit': limit,
-                                'npairs': 6 if tier == 'quick' else 16, 'seed': rng.randrange(10 ** 6)})
+                                'npairs': 10 if tier == 'quick' else 24, 'seed': rng.randrange(10 ** 6)})
     return out
 
 
